@@ -1041,6 +1041,65 @@ def r3_numbers(program, rep):
         raise AnalysisError("struct_file.num: no conversion found")
 
 
+
+def r3_every_option_applied(program, rep):
+    """Struct.update_default_values applies every option it is given: no
+    value is passed over because it is falsy (``if not value: continue``
+    drops led0=0, soft_wdog=0, ... - options of this call that then are
+    neither in the image nor in the structs returned).  A test against None
+    is a different thing (an option that was not given) and is not judged
+    here."""
+    fn = program.get(SF + ":Struct.update_default_values")
+    inst = qual(fn)
+    kw = fn.args.kwarg.arg if fn.args.kwarg is not None else None
+    if kw is None:
+        raise AnalysisError("update_default_values: options are no longer "
+                            "taken as keyword arguments")
+    loops = []
+    for lp in ast.walk(fn):
+        if isinstance(lp, ast.For) and any(
+                isinstance(x, ast.Name) and x.id == kw
+                for x in ast.walk(lp.iter)) and \
+                isinstance(lp.target, (ast.Tuple, ast.List)) and \
+                len(lp.target.elts) == 2 and \
+                isinstance(lp.target.elts[1], ast.Name):
+            loops.append(lp)
+    if not loops:
+        raise AnalysisError("update_default_values: no loop over the "
+                            "(name, value) pairs of the options found")
+    for lp in loops:
+        v = lp.target.elts[1].id
+        hits = []
+
+        def truth_uses(e):
+            # v itself, not v, v and .., v or .. in a test position
+            if isinstance(e, ast.Name) and e.id == v:
+                return True
+            if isinstance(e, ast.UnaryOp) and isinstance(e.op, ast.Not):
+                return truth_uses(e.operand)
+            if isinstance(e, ast.BoolOp):
+                return any(truth_uses(x) for x in e.values)
+            return False
+        for n in ast.walk(lp):
+            if isinstance(n, (ast.If, ast.While, ast.IfExp)) and \
+                    truth_uses(n.test):
+                hits.append(n)
+            elif isinstance(n, ast.BoolOp) and any(
+                    isinstance(x, ast.Name) and x.id == v
+                    for x in n.values[:-1]):
+                hits.append(n)
+        rep.check(not hits, "C20-R3", inst, "every option given is applied, "
+                  "whatever its truth value (no 'if not value' in the loop "
+                  "over the options)", construct="falsy option skipped",
+                  node=hits[0] if hits else lp,
+                  fail="update_default_values tests the truth value of an "
+                       "option's value (line %d): an option set to 0 / "
+                       "False / '' is treated as not given and keeps the "
+                       "struct file's default - the caller's setting is in "
+                       "neither the image nor the returned structs" % (
+                           hits[0].lineno if hits else 0),
+                  positive=True)
+
 def check(program, rep):
     program.module(MOD)
     folder = Folder(program)
@@ -1052,6 +1111,7 @@ def check(program, rep):
     rep.guard("C20-R3", r3_returned_structs, program, rep)
     rep.guard("C20-R3", r3_callers_files, program, rep)
     rep.guard("C20-R3", r3_numbers, program, rep)
+    rep.guard("C20-R3", r3_every_option_applied, program, rep)
     rep.guard("C20-R4", r4_packet, program, folder, rep)
     # the packed configuration is only as good as the table that maps the
     # struct file's field codes to struct-module codes (C14-R6)
